@@ -11,8 +11,15 @@ CONSTANTS
   Dev_NdValIndex = FALSE
   Dev_CsIndex = FALSE
   Dev_SizeHint = FALSE
+  Dev_RsrcRecursion = FALSE
+  Dev_FirstDepth = FALSE
+  Dev_KidsDepth = FALSE
+  StackFrames = 9
+  OutlineDepthLimit = 5
+  NameTreeDepthLimit = 5
+  ChainLens = {1, 2, 3, 4, 5, 6, 7, 8, 9, 10, 12, 16, 24}
   Emit = FALSE
-  Scen = {"deref", "cont", "rsrc", "links", "dest", "kids", "names", "img", "toc", "pages"}
-INVARIANTS PcOK Bounded RsrcDepth TotalInv
+  Scen = {"chain", "deref", "cont", "rsrc", "links", "dest", "kids", "names", "img", "toc", "pages"}
+INVARIANTS ChainOK StackOK PcOK Bounded RsrcDepth TotalInv
 PROPERTIES Terminates
 CHECK_DEADLOCK FALSE
